@@ -30,7 +30,8 @@ static U oracleLocal(const Idx& s, const long leafIdx[NPART], long level, long i
 // a0 = block size, a1 = one group per parent, a2 = geometry checks in the kernel, a3 = upper working level (-1: default)
 // a0 < 0: block size forked over 1..-a0; a1 < 0: grouping mode forked; a3 == -2: upper level forked over {default, 0}
 static void forkConfig(long& a0, long& a1, long& a3){
-    if(a0 < 0) a0 = 1 + irsym_choose(-a0);
+    if(a0 == -100) a0 = -1;                                   // automatic block size (TbfBlockSizeFinder::Estimate; hardware threads forked by the engine)
+    else if(a0 < 0) a0 = 1 + irsym_choose(-a0);
     if(a1 < 0) a1 = irsym_choose(2);
     if(a3 == -2) a3 = irsym_choose(2) ? 0 : -1;
     irsym_note(1, a0); irsym_note(2, a1); irsym_note(3, a3);
@@ -103,7 +104,8 @@ ENTRY(h_c07){
     const Idx space(cfg);
     Tree tree(cfg, gP.pos, a0, a1 != 0);
     long leafIdx[NPART]; leafIndexes(space, leafIdx);
-    checkStructure(tree, space, leafIdx, a0, a1 != 0);
+    checkStructure(tree, space, leafIdx, a0 == -1 ? tree.getNbElementsPerGroup() : a0, a1 != 0);
+    irsym_assert(tree.getNbElementsPerGroup() >= 1, S_BLOCKSIZE);
     for(long level = 0; level < HEIGHT; ++level){ irsym_observe(tree.getNbCellGroupsAtLevel(level)); for(const auto& g : tree.getCellGroupsAtLevel(level)) irsym_observe(g.getEndingSpacialIndex()); }
     if(a2){
         tree.rebuild();
